@@ -119,7 +119,7 @@ def check(ctx):
     n_scn = n_pairs = n_nontrivial = 0
     fes = {}
     vmm_seen = set()
-    noext = neg_pairs = disabled = 0
+    noext = neg_pairs = neg_match = disabled = 0
     kinds = {}
     with open(scn, "w") as f:
         for payload in res.printed.get("SCN", []):
@@ -139,6 +139,7 @@ def check(ctx):
             noext += sum(1 for m in s["ms"] if not m["m"]["ext"])
             if ff["not"]:
                 neg_pairs += n
+                neg_match += sum(1 for m in s["ms"] if m["exp"])
             if not ff["enabled"]:
                 disabled += n
             for k in ("ecu", "apid", "ctid", "pay"):
@@ -163,9 +164,9 @@ def check(ctx):
     trace = ctx.path("trace.ndjson")
     tmp = ctx.path("tmp")
     os.makedirs(tmp, exist_ok=True)
-    nrand = 500 if quick else 6000
-    info = drive(binp, ["--scenarios", scn, "--seed", str(ctx.seed), "--random", str(nrand), "--random-msgs", "10" if quick else "16",
-                        "--random-eac", "30" if quick else "300", "--sample", "200" if quick else "1000",
+    nrand = 500 if quick else 2500
+    info = drive(binp, ["--scenarios", scn, "--seed", str(ctx.seed), "--random", str(nrand), "--random-msgs", "10" if quick else "12",
+                        "--random-eac", "30" if quick else "300", "--sample", "200" if quick else "600",
                         "--adlt", adlt, "--tmp", tmp, "--eac-max", "80" if quick else "1500",
                         "--nchars", "3" if quick else "4", "--drift-cap", "0" if quick else "12"], trace)
     st = info["stats"]
@@ -197,7 +198,7 @@ def check(ctx):
     for evs in cases.values():
         for e in evs:
             evk[e["ev"]] = evk.get(e["ev"], 0) + 1
-    ctx.extra["paths"] = {"type_bytes_covered": len(vmm_seen), "pairs_without_ext_header": noext, "pairs_negated": neg_pairs,
+    ctx.extra["paths"] = {"type_bytes_covered": len(vmm_seen), "pairs_without_ext_header": noext, "pairs_negated": neg_pairs, "pairs_negated_matching": neg_match,
                           "pairs_disabled": disabled, "pairs_per_criterion_form": kinds, "trace_events": evk,
                           "kf_switches": sw, "kf_cases": sum(1 for k in v.known)}
     ctx.extra["binding_selftest"] = binding_selftest(ctx, cases, v, sw)
